@@ -97,6 +97,11 @@ CHECKS = {
         "all histories of bounded length are enumerated and each is replayed into real Go maps of four capacities; the resulting Map is encoded three times through ~30 entry points (Xml, XmlWriter, XmlIndent[Writer], AnyXml, Json[Indent][Writer][Raw], "
         "Maps.*String / *File forms, MapSeq.Xml[Writer][Indent]) and every output must equal the specification's bytes (compact), be token-equivalent (indented), equal the byte-returning form (Writer/Raw), or be the concatenation (Maps); failing sinks must surface their error.",
    ref="DESIGN.md section 4, C16", technique="TLA+ history enumeration (TLC) + content-function encoder spec, replay through all encoder variants with byte comparison"),
+ "C17": dict(
+   text="Purity: every Map of the builder's space is passed to every read-only method (all ValuesFor*/PathsFor*/Leaf*/Exists/Elements/Attributes/Root queries, XML/JSON/gob encoders, Copy, StringIndent, NewMap, MapSeq encoders) and deep-compared afterwards; "
+        "Copy is followed by a mutation of every container of the copy (and of the original) with the other side compared. Concurrency: TLA+ specification MxjConc of G goroutines x programs x gate segments; TLC checks for every interleaving that the shared Map is "
+        "never written, results equal sequential results, and termination; every interleaving is then ENFORCED on real goroutines parked at the gate hook (build tag verif) and the results / shared Map compared, under a -race build, plus free-running stress (8 goroutines) where the race detector reports memory-level races.",
+   ref="DESIGN.md section 4, C17", technique="TLA+ interleaving spec (TLC exhaustive), schedule replay with goroutine gates under the Go race detector, purity replay"),
 }
 NOT_YET = "machinery for this property is not built yet in this round (design in DESIGN.md section 4); no claim is made"
 
